@@ -118,7 +118,7 @@ type C16Case struct {
 	Ops        []Op   `json:"ops"`
 }
 
-var legacyProfile = &Profile{W: weights(map[string]int{"set": 26, "remove": 10, "save": 24, "prune": 12, "prune_refuse": 1, "reopen": 8, "lvfo": 7, "dvf": 3, "rollback": 2, "setnil": 0, "reload": 4, "hold": 2, "replay": 5}), NoInitVer: true}
+var legacyProfile = &Profile{W: weights(map[string]int{"set": 26, "remove": 10, "save": 24, "prune": 12, "prune_refuse": 1, "reopen": 8, "lvfo": 7, "dvf": 3, "rollback": 2, "setnil": 0, "reload": 4, "hold": 2, "replay": 5, "pin": 3, "unpin": 3}), NoInitVer: true}
 
 // runC16 builds the legacy database through the co-process, checks it against the reference model, opens it with the
 // current library and runs the continuation.
